@@ -34,6 +34,8 @@ class Result:
         self.functions = set()
         self.models = set()
         self.partitions = 0
+        self._seen_interps = set()
+        self.unmodelled = []
 
     def ob(self, rule, instance, ok, detail='', where='', key=None, nontrivial=True):
         o = Ob(rule, instance, bool(ok), detail, where, key, nontrivial)
@@ -49,6 +51,14 @@ class Result:
     def absorb(self, interp):
         self.functions |= set(interp.fns_analysed)
         self.models |= set(interp.models_used)
+        if id(interp) not in self._seen_interps:
+            self._seen_interps.add(id(interp))
+            self.partitions += 1
+        self.extra['abstract_states_explored'] = self.extra.get('abstract_states_explored', 0) + interp.stats.get('states', 0)
+        interp.stats['states'] = 0
+        for u in interp.unmodelled:
+            if u not in self.unmodelled:
+                self.unmodelled.append(u)
 
     def violations(self):
         return [o for o in self.obs if not o.ok]
@@ -99,6 +109,7 @@ def finish(res, tier, level, t0, facts_key, assumptions, explanation, trusted_ba
         'functions_analysed': sorted(res.functions),
         'models_used': sorted(res.models),
         'partitions': res.partitions,
+        'unmodelled_callees_met': res.unmodelled[:40],
         'floors': {k: {'measured': v[0], 'floor': v[1]} for k, v in res.floors.items()},
         'facts_key': facts_key,
         'rules': sorted({o.rule for o in res.obs}),
